@@ -57,6 +57,7 @@ type tracker struct {
 	cancelled   bool // a CancelDelete resurrected a deleted group
 	idxPruned   bool // an index was pruned while the sequence had shard groups
 	farPast     bool // a group was created so early that its start precedes the int64 nanosecond range
+	beyondMax   bool // a group was created for the instant math.MaxInt64 (one past MaxNanoTime)
 	reported    map[string]bool
 	failedSeen  bool
 	interesting bool
@@ -135,6 +136,9 @@ func (t *tracker) step(in *metax.Inst, cmd metax.Cmd) bool {
 			if startBeforeInt64Range(in) {
 				t.farPast = true
 			}
+			if strings.Contains(cmd.Text, " 9223372036854775807 ") {
+				t.beyondMax = true
+			}
 			if t.durChanged || t.cancelled || strings.Contains(strings.Join(t.hist, "|"), "DeleteShardGroup") {
 				t.interesting = true
 			}
@@ -162,6 +166,8 @@ func (t *tracker) classify(clause string) string {
 		switch {
 		case t.farPast:
 			return "group_start_before_int64_range"
+		case t.beyondMax && clause == "disjoint":
+			return "group_beyond_max_nanotime"
 		case t.durChanged:
 			return "group_after_duration_change"
 		case t.cancelled:
